@@ -458,11 +458,15 @@ func runC17(c *h.Ctx) {
 		op.call(shared, 0)
 		h2, l2 := deep.Snapshot(shared)
 		c.Count("footprint:"+op.name, 3, op.name)
+		// A footprint that is not read-only takes the operation out of the premise of the footprint theorems
+		// (readonly_race_free, readers_sequentially_consistent): the property is then no longer SHOWN to hold by them.
+		// It is not by itself a failing schedule — a write may be synchronised (sync.Once, a mutex, an atomic) — so it
+		// is reported as a broken correspondence; the race-detector legs below search for the failing schedule.
 		if h0 != h1 {
-			c.Violation("concurrent use needs a read-only footprint: the FIRST call of an operation writes to the shared object (lazily initialised state)", map[string]any{"operation": op.name, "changed": deep.Diff(l0, l1)})
+			c.Mismatch("footprint premise of the concurrency theorems: the FIRST call of an operation writes to the shared object (lazily initialised state)", map[string]any{"operation": op.name, "changed": deep.Diff(l0, l1)})
 		}
 		if h1 != h2 {
-			c.Violation("concurrent use needs a read-only footprint: a later call of an operation writes to the shared object", map[string]any{"operation": op.name, "changed": deep.Diff(l1, l2)})
+			c.Mismatch("footprint premise of the concurrency theorems: a later call of an operation writes to the shared object", map[string]any{"operation": op.name, "changed": deep.Diff(l1, l2)})
 		}
 		again := op.call(op.mk(), 0)
 		if !bytes.Equal(r0, again) {
